@@ -7,25 +7,7 @@ fn fmt_stub(_args: std::fmt::Arguments<'_>) -> String {
 }
 
 // ---- spec character classes (October 2021, section 2.1) -------------------------------------------
-fn ref_punctuator(c: char) -> Option<TokenKind> {
-    Some(match c {
-        '!' => TokenKind::Bang,
-        '$' => TokenKind::Dollar,
-        '&' => TokenKind::Amp,
-        '(' => TokenKind::LParen,
-        ')' => TokenKind::RParen,
-        ':' => TokenKind::Colon,
-        '=' => TokenKind::Eq,
-        '@' => TokenKind::At,
-        '[' => TokenKind::LBracket,
-        ']' => TokenKind::RBracket,
-        '{' => TokenKind::LCurly,
-        '}' => TokenKind::RCurly,
-        '|' => TokenKind::Pipe,
-        ',' => TokenKind::Comma, // Comma is an ignored token, lexed as its own kind
-        _ => return None,
-    })
-}
+include!("parser_ref_lexer.rs");
 
 fn ref_name_start(c: char) -> bool {
     let u = c as u32;
@@ -312,3 +294,23 @@ fn c03_twin_must_fail() {
     std::mem::forget(lx);
     assert!(is_tok == (ref_single(b as char) != Item1::Err && b != b'#'));
 }
+
+// =================================================================================================
+// prefix x last-byte comparison against the reference lexer (harness/parser/ref_lexer.rs, included above)
+// =================================================================================================
+#[path = "parser_lexer_prefix.rs"]
+mod prefix;
+
+/// prefix ++ [b] through the real lexer and the reference
+pub(super) fn prefix_case<const N: usize>(prefix: &[u8], b: u8) {
+    let mut buf = [0u8; N];
+    let mut i = 0;
+    while i + 1 < N {
+        buf[i] = prefix[i];
+        i += 1;
+    }
+    buf[N - 1] = b;
+    let s = unsafe { std::str::from_utf8_unchecked(&buf[..]) };
+    assert!(lexer_agrees(&buf[..], s));
+}
+
